@@ -185,6 +185,8 @@ def evaluate(name, all_checks):
                                    'seconds': round(secs, 1)}
         if code == 1:
             caught = f'{pid} quick'
+        elif os.environ.get('VF_EVAL_SKIP_THOROUGH'):
+            pass        # (time-boxed pass: own quick, then the other quicks)
         else:
             code, kinds, secs, out = st.run_check(pid, 'thorough', root)
             results[f'{pid} thorough'] = {'exit': code, 'kinds': kinds[:3],
